@@ -1,6 +1,6 @@
 (* C10 - generator output matches its config: frame count, scene cuts, block precedence. *)
 From Coq Require Import List NArith ZArith Bool String.
-From DV Require Import Outcome Bits BitIO Blocks Rpu Ops Editor Generator GeneratorProofs.
+From DV Require Import Outcome Bits BitIO Blocks Rpu Ops Editor Generator GeneratorProofs GeneratorPrec.
 Import ListNotations.
 Open Scope N_scope.
 
@@ -31,6 +31,43 @@ Theorem C10_scene_cut : forall long s i d d' a c f t,
   scene_flag_dm d' = Some (if (i =? 0) || long then 1 else f).
 Proof. exact frame_dm_scene_flag. Qed.
 
+(* LAST WRITER WINS: a list of overrides (replace_metadata_block each) applied in order to DM data holding every
+   key (level, target) at most once leaves, under every key, the last block of the list with that key - stored
+   only if the container of its level exists - and leaves every key the list does not name as it was; keys stay
+   unique (an override never adds a second block for a key) *)
+Theorem C10_last_writer : forall bs d d', uniq_keys d -> dm_replace_blocks d bs = Ok d' ->
+  uniq_keys d' /\
+  forall k, key_blocks d' k = match last_writer k bs with
+                              | Some b => if has_cont d (fst k) then [b] else []
+                              | None => key_blocks d k
+                              end
+            /\ has_cont d' (fst k) = has_cont d (fst k).
+Proof. exact replace_blocks_last_writer. Qed.
+
+(* BLOCK PRECEDENCE: frame i of shot s carries, under every key, the last block with that key in
+     [config L5 (or zero offsets)] ++ [config L6] ++ default blocks (other than L5 / L6) ++ shot blocks ++ frame edit at offset i
+   and, under the keys none of them names, the block of the profile's base DM data (its L9, L11, L254, ...) *)
+Theorem C10_precedence : forall c d0 ds long s i d',
+  uniq_keys d0 -> static_dm c d0 = Ok ds -> frame_dm long s i ds = Ok d' ->
+  uniq_keys d' /\
+  forall k, key_blocks d' k = writer_view d0 (static_list c ++ s_blocks s ++ edit_blocks s i) k.
+Proof. exact frame_precedence. Qed.
+
+(* the hypothesis on the base DM data is decidable (the check evaluates it on the base RPU of every profile) *)
+Theorem C10_uniq_decidable : forall d, uniq_check d = true -> uniq_keys d.
+Proof. exact uniq_check_sound. Qed.
+
+(* and satisfiable, with a frame on which all four layers act *)
+Theorem C10_precedence_instance :
+  uniq_check ex_d0 = true /\
+  exists ds d', static_dm ex_cfg ex_d0 = Ok ds /\ frame_dm false ex_shot 1 ds = Ok d' /\
+    key_blocks d' (2, 2081%Z) = [ex_l2 2081 7] /\ key_blocks d' (2, 3079%Z) = [ex_l2 3079 8] /\
+    key_blocks d' (5, 0%Z) = [l5_block 0 0 10 10] /\ key_blocks d' (254, 0%Z) = [default_block 254] /\
+    okey (ex_l2 3079 8) = (2, 3079%Z).
+Proof. exact precedence_instance. Qed.
+
 Print Assumptions C10_frame_count.
+Print Assumptions C10_last_writer.
+Print Assumptions C10_precedence.
 Print Assumptions C10_l1_clamped.
 Print Assumptions C10_scene_cut.
